@@ -130,17 +130,22 @@ static int new_packet(int sk_fd, int can_socket) {
     int res = 0;
     uint64_t proc_bytes = 0, msg_proc_bytes = 0;
     uint32_t udp_seq_num;
-    uint16_t msg_length, can_payload_length, acf_msg_length;
+    uint16_t msg_length, can_payload_length, acf_msg_length, pdu_length;
     uint8_t subtype;
-    uint8_t pdu[MAX_PDU_SIZE], i;
+    uint8_t pdu[MAX_PDU_SIZE], i, pad_length;
     uint8_t *cf_pdu, *acf_pdu, *udp_pdu, *can_payload;
     frame_t frame;
     canid_t can_id;
 
-    memset(&frame, 0, sizeof(struct canfd_frame));
     res = recv(sk_fd, pdu, MAX_PDU_SIZE, 0);
     if (res < 0 || res > MAX_PDU_SIZE) {
         perror("Failed to receive data");
+        return 0;
+    }
+    pdu_length = res;
+
+    // Drop datagrams that are too short for the headers they must carry
+    if (pdu_length < (use_udp ? AVTP_UDP_HEADER_LEN : 0) + AVTP_COMMON_HEADER_LEN) {
         return 0;
     }
 
@@ -159,6 +164,11 @@ static int new_packet(int sk_fd, int can_socket) {
         return 0;
     }
 
+    if (pdu_length < proc_bytes + ((subtype == AVTP_SUBTYPE_TSCF) ?
+                                   AVTP_TSCF_HEADER_LEN : AVTP_NTSCF_HEADER_LEN)) {
+        return 0;
+    }
+
     if (subtype == AVTP_SUBTYPE_TSCF){
         proc_bytes += AVTP_TSCF_HEADER_LEN;
         msg_length = Avtp_Tscf_GetStreamDataLength((Avtp_Tscf_t*)cf_pdu);
@@ -167,7 +177,17 @@ static int new_packet(int sk_fd, int can_socket) {
         msg_length = Avtp_Ntscf_GetNtscfDataLength((Avtp_Ntscf_t*)cf_pdu);
     }
 
+    // The announced ACF payload must lie inside the received datagram
+    if (msg_length > pdu_length - proc_bytes) {
+        return 0;
+    }
+
     while (msg_proc_bytes < msg_length) {
+
+        // A complete ACF CAN header must be left
+        if (msg_length - msg_proc_bytes < AVTP_CAN_HEADER_LEN) {
+            return 0;
+        }
 
         acf_pdu = &pdu[proc_bytes + msg_proc_bytes];
 
@@ -179,8 +199,22 @@ static int new_packet(int sk_fd, int can_socket) {
 
         can_payload = Avtp_Can_GetPayload((Avtp_Can_t*)acf_pdu);
         acf_msg_length = Avtp_Can_GetAcfMsgLength((Avtp_Can_t*)acf_pdu)*4;
-        can_payload_length = Avtp_Can_GetCanPayloadLength((Avtp_Can_t*)acf_pdu);
+        pad_length = Avtp_Can_GetPad((Avtp_Can_t*)acf_pdu);
+
+        // The ACF message must hold its header and padding, lie inside the
+        // announced payload and carry no more data than a CAN frame can take
+        if (acf_msg_length < AVTP_CAN_HEADER_LEN + pad_length ||
+            acf_msg_length > msg_length - msg_proc_bytes) {
+            return 0;
+        }
+        can_payload_length = acf_msg_length - AVTP_CAN_HEADER_LEN - pad_length;
+        if (can_payload_length > ((can_variant == AVTP_CAN_FD) ? CANFD_MAX_DLEN : CAN_MAX_DLEN)) {
+            return 0;
+        }
         msg_proc_bytes += acf_msg_length;
+
+        // Every ACF message yields a fresh CAN frame
+        memset(&frame, 0, sizeof(frame));
 
         // Handle EFF Flag
         if (Avtp_Can_GetEff((Avtp_Can_t*)acf_pdu)) {
